@@ -78,7 +78,7 @@ def _e8(ctx):
 
 def _exporters_by_value(ctx, ex):
     """get_csr_json, get_csr_csv and get_csr_header (with the region-definition and accessor generators it calls) interpreted
-    exactly (lxs/pyconst.py) on a model SoC description -- two CSR regions, registers of 1..64 bits, bus words of 8 and 32 bits,
+    exactly (lxs/pyconst.py) on a model SoC description -- two CSR regions, registers of 1..128 bits, bus words of 8 and 32 bits,
     alignment 32 and 64 -- and the *published text* read back: every register's address in the JSON / CSV / `#define CSR_*_ADDR` /
     accessor bodies must be  region origin + alignment//8 * (bus words of the registers before it), and the generated multi-word
     accessors, executed on a model memory, must compose / split the register most-significant word first at those addresses.
@@ -96,7 +96,7 @@ def _exporters_by_value(ctx, ex):
     consts["json"] = NS(dumps=Native(lambda d, indent=None, **k: _json.dumps(d)), loads=Native(lambda t: _json.loads(t)))
     consts["generated_banner"] = Native(lambda *a, **k: "")
     consts["generated_separator"] = Native(lambda *a, **k: "")
-    SIZES = {"uart": [1, 8, 9, 32, 33, 64, 17], "timer": [32, 1, 40]}
+    SIZES = {"uart": [1, 8, 9, 32, 33, 64, 17, 96, 5], "timer": [32, 1, 128, 40]}      # registers wider than 64 bits (no C accessor) sit before others
     ORIG = {"uart": 0xf0001000, "timer": 0xf0001800}
 
     def model(busword):
@@ -191,6 +191,7 @@ def _exporters_by_value(ctx, ex):
                             for ad in addrs:
                                 want = (want << busword) | mem[ad]
                             got = None
+                            stray = None
                             if m_r is not None:
                                 acc = None
                                 okp = True
@@ -202,6 +203,7 @@ def _exporters_by_value(ctx, ex):
                                         v = mem.get(ad)
                                         if v is None:
                                             okp = False
+                                            stray = ad
                                             break
                                         if ln.startswith("return"):
                                             got = v
@@ -222,7 +224,7 @@ def _exporters_by_value(ctx, ex):
                                 if not okp:
                                     got = None
                             if got != want and bad["acc"] is None:
-                                bad["acc"] = f"{what}: {k}_read() returns {hex(got) if isinstance(got, int) else 'something the reader cannot follow'} on a memory holding " \
+                                bad["acc"] = f"{what}: {k}_read() returns {hex(got) if isinstance(got, int) else (f'the word at {stray:#x}, which is not one of its own' if isinstance(stray, int) else 'something the reader cannot follow')} on a memory holding " \
                                              f"{[(hex(x), hex(y)) for x, y in mem.items()]}, expected {want:#x} (most significant word at the lowest address)"
                             m_w = _re.search(r"static inline void %s_write\((\w+) v\) \{\n(.*?)\n\}" % k, txt, _re.S)
                             ro = k.split("_r")[1].isdigit() and int(k.split("_r")[1]) % 2 == 1
